@@ -462,7 +462,7 @@ def run(ck, prog, ctx):
     n_perm = 0
     for b_ in link_bodies:
         for bi_, t_ in b_.calls():
-            if t_.callee.method in ("swap_remove", "swap", "reverse", "sort", "sort_unstable", "sort_by", "sort_by_key", "sort_unstable_by", "sort_unstable_by_key", "rotate_left", "rotate_right") and t_.args:
+            if t_.callee.method in ("swap_remove", "swap", "reverse", "sort", "sort_unstable", "sort_by", "sort_by_key", "sort_unstable_by", "sort_unstable_by_key", "rotate_left", "rotate_right") and t_.args and not (t_.callee.name or "").startswith(("std::mem::", "core::mem::")) and re.search(r"Vec(::)?<|<impl \[|VecDeque(::)?<", (t_.callee.def_args or "") + (t_.callee.name or "")):
                 f_ = self_field(b_, t_.args[0])
                 if f_ in lockstep:
                     n_perm += 1
